@@ -233,9 +233,11 @@ def load_groups(names):
     return [Group(n) for n in names]
 
 
-def kani_cmd(harness_fulls, jobs=16, extra=()):
+def kani_cmd(harness_fulls, jobs=16, extra=(), harness_timeout=None):
     cmd = ["cargo", "kani", "-Z", "function-contracts", "-Z", "stubbing",
            "--target-dir", KANI_TARGET]
+    if harness_timeout:
+        cmd += ["-Z", "unstable-options", "--harness-timeout", "%ds" % harness_timeout]
     for h in harness_fulls:
         cmd += ["--harness", h]
     cmd += ["--exact", "-j", str(jobs), "--output-format", "terse"]
@@ -243,7 +245,7 @@ def kani_cmd(harness_fulls, jobs=16, extra=()):
     return cmd
 
 
-def run_kani(prop, group_names, tier, timeout=1500, jobs=16, only=None, keep_scratch=False):
+def run_kani(prop, group_names, tier, timeout=1500, jobs=16, only=None, keep_scratch=False, harness_timeout=None):
     """Returns (results, info). Raises Undecided on infrastructure failure."""
     groups = load_groups(group_names)
     selected = []
@@ -262,7 +264,9 @@ def run_kani(prop, group_names, tier, timeout=1500, jobs=16, only=None, keep_scr
     sd = scratch_dir("kani-" + prop)
     repo = copy_repo(os.path.join(sd, "repo"))
     splice(repo, used_groups)
-    cmd = kani_cmd([h.full for h in selected], jobs=jobs)
+    if harness_timeout is None:
+        harness_timeout = int(os.environ.get("VERIF_HARNESS_TIMEOUT", "300" if tier == "quick" else "1200"))
+    cmd = kani_cmd([h.full for h in selected], jobs=jobs, harness_timeout=harness_timeout)
     log("[kani] %s: %d harnesses: %s" % (prop, len(selected), " ".join(h.name for h in selected)))
     rc, out, wall = run(cmd, cwd=repo, timeout=timeout, rss_gb=48)
     write(os.path.join(CACHE, "logs", "kani-%s-%s.log" % (prop, tier)), out)
